@@ -148,6 +148,7 @@ EXPORT errno_t _wctomb_s_chk(int *restrict retvalp, char *restrict dest,
         }
     }
 
+    errno = 0;
     len = *retvalp = wctomb(dest, wc);
 
     if (likely(len > 0 && (rsize_t)len < dmax)) {
